@@ -52,6 +52,36 @@ CLAIMED.update({
               'Cross-mode comparison (lengths, labels) is bounded; li over label arithmetic can violate it (see DESIGN 6).', 'DESIGN 4 C20'),
 })
 
+CLAIMED.update({
+    'C10': _p('other', T_DED + ' (A-STRUCT relative): format/range VCs of the data directives over unbounded values, emit-size VCs, read_lines include_bytes rewrite; bounded for codecs and files',
+              'Proof: the struct code chosen for db/dh/dw/dd and bytes/shorts/ints/longs/longlongs is little-endian, of the documented width and accepts exactly -2**(8w-1) <= v < 2**(8w); refusals are AssemblerErrors; sizes equal emitted lengths; include_bytes carries the looked-up path. Bounded: strings over code points / escapes, include_bytes trees with decoys.',
+              'A-STRUCT, codecs and the filesystem are external; sequence lengths unrolled 0..3.', 'DESIGN 4 C10'),
+    'C11': _p('other', T_DED + ' for resolve_constants / resolve_register_aliases / constructed operand expressions / register-alias lemma (exhaustive); bounded for the meaning of expression texts (Python eval)',
+              'Proof of the sequential constant environment, alias replacement, operand-type obligations, alias lemma over all 97 register spellings; bounded expression trees and substitution in every operand position, both modes. Five recorded KNOWN-FINDINGs (character literals broken by the lexer / inside expressions).',
+              'A-EVAL: expression arithmetic is Python eval; see KNOWN_FINDINGS.txt.', 'DESIGN 4 C11'),
+    'C13': _p('other', T_DED + ' for register spellings and the imm(reg) vs reg, imm parse paths (symbolic parse_item); bounded differential re-rendering for the lexer freedoms',
+              'Proof: register table exhaustive + lookup_register contract; parse_item builds equal items for both offset syntaxes and hands operands to the encoders in documented order for all 93 mnemonics. Bounded: every generated program re-rendered with the documented freedoms per line and operand.',
+              'lex_tokens / read_lines are regular-expression and string code: not modelled, bounded only.', 'DESIGN 4 C13'),
+    'C14': _p('other', T_DED + ' of read_lines (Hoare step on an arbitrary line, filesystem as uninterpreted path constructors, recursion by contract) + cli_main path handling; bounded include trees x working directories',
+              'Proof: splice equation, first-match lookup over include_dirs + the including file directory, path provenance (cwd only for string sources), passes never inspect Line fields. Bounded: trees of depth 0-3 through API and CLI from 3 working directories against the hand-spliced file.',
+              'String predicates on raw lines uninterpreted; include cycles diverge (partial correctness).', 'DESIGN 4 C14'),
+    'C15': _p('other', T_DED + ': exceptional frames of all 13 passes (every raising path is AssemblerError with the item line); bounded fault planting for the front end',
+              'Proof over every pass and Item class with partial operations modelled (struct, int(), eval failures, register lookups); bounded: 60 faulty lines in 6 classes planted at positions, include depths 0-3, both modes.',
+              'Escapes outside the property list (operand count, bad pack format, align 0) are observations. lex/parse/read_lines bounded.', 'DESIGN 4 C15'),
+    'C16': _p('other', T_DED + ': frame (modifies / determinism) obligations over the AST of all 243 functions + dynamic mutation frames from the pass step VCs; bounded call histories and hash seeds',
+              'Proof that no function writes module-level state, uses hidden state or a nondeterministic primitive, or iterates a set; bounded interleavings vs fresh processes, 4-8 hash seeds, table digests.',
+              'Flow-insensitive alias analysis (sufficient condition); Python eval can write a constant via := (observation).', 'DESIGN 4 C16'),
+    'C17': _p('other', T_DED + ': effect-ordering obligations on every path of the real cli_main with arbitrary option values and assemble under contract; bounded subprocess runs',
+              'Proof: writes only after assemble returned, no failure exit after a write, written content is the assembled bytes / label lines / bin2hex arguments. Bounded: entry point in subprocesses over the option lattice with faults in every pass, pre-existing files, independent Intel HEX reader.',
+              'intelhex.bin2hex and argparse are dependencies (assumed); I/O errors of the writes themselves out of scope.', 'DESIGN 4 C17'),
+    'C18': _p('other', T_DED + ' relative to an ASSUMED DfuSe device contract: request builders, sleep contract, loop-rule VCs of the erase/write loops for symbolic firmware length; bounded simulated device',
+              'Proof: request bytes, poll delay waited on every GETSTATUS, page arithmetic and address bounds for all lengths and variants, chunk = k-th page of the zero-padded image, no request while the last reported state is dfuDNBUSY. Bounded: real cli_main against a simulated device.',
+              'Device behaviour is an assumption about hardware; polling termination not proved.', 'DESIGN 4 C18'),
+    'C19': _p('other', T_DED + ': effect ordering (size guard dominates the first request) and loop-body obligation (an iteration completes only with STATUS_OK) on the real dfu.cli_main; bounded error injections',
+              'Proof on every path with arbitrary GETSTATUS responses; bounded single/double error-status injections and oversize lengths against the simulated device.',
+              'Assumed device contract; a raw USB error also ends the run non-zero.', 'DESIGN 4 C19'),
+})
+
 NOT_YET = {}
 
 
